@@ -12,6 +12,7 @@ package traversal
 //@   assigns nothing
 //@ functype LinkTargetNodePrototypeChooser(lnk, lnkCtx) (np, err)
 //@   assigns nothing
+//@   ensures err == nil ==> np != nil
 
 // ---- budgets: check-and-decrement, exactly once per step ----
 
@@ -46,7 +47,8 @@ package traversal
 // ---- loadLink: exactly one link-budget check, before the load ----
 
 //@ func (Progress).loadLink(lnk, v, parent) (r, err)
-//@   requires prog.Cfg != nil && prog.Cfg.LinkTargetNodePrototypeChooser != nil
+//@   requires prog.Cfg != nil && prog.Cfg.LinkTargetNodePrototypeChooser != nil && lnk != nil
+//@   requires prog.Cfg.LinkSystem.DecoderChooser != nil && prog.Cfg.LinkSystem.HasherChooser != nil
 //@   before LinkTargetNodePrototypeChooser assert[C15] prog.Budget != nil ==> old(prog.Budget.LinkBudget) > 0 && prog.Budget.LinkBudget == old(prog.Budget.LinkBudget) - 1
 //@   before Load assert[C15] prog.Budget != nil ==> old(prog.Budget.LinkBudget) > 0 && prog.Budget.LinkBudget == old(prog.Budget.LinkBudget) - 1
 //@   before Load assert[C07] carg2 == lnk
